@@ -458,6 +458,42 @@ def correspond(res, spec):
                                         f"gatherer agrees with vectors: {ex.get('metrics_gatherer_agrees')}\n")
                     res.violations.append(dict(msg="metrics endpoint does not serve the pool series truthfully", replay=rp))
 
+    if (res.tier == "quick" and not res.violations and (res.corr_breaks or not res.proof_ok)
+            and spec["judge"][0] == "hist" and os.environ.get("VERIF_NO_ESCALATE") != "1"):
+        escalate(res, spec)
+
+
+def escalate(res, spec):
+    """a proof obligation or the correspondence broke and the quick streams showed no failing input: widen the search
+    for one before giving up - the thorough-size streams of this property (and the restart / fragment streams), a few
+    seeds, judged on the implementation alone; stops at the first violation.  Only ever runs on a tree that already fails."""
+    want = spec["judge"][1] or {res.pid}
+    seen, streams = set(), []
+    for (stream, mode, _p) in list(spec["streams"]) + [("restart", "hist", None), ("fragboot", "hist", None), ("hist", "hist", None)]:
+        if mode == "hist" and stream not in seen:
+            seen.add(stream)
+            streams.append(stream)
+    budget = time.time() + float(os.environ.get("VERIF_ESCALATE_S", "900"))
+    res.cov["escalated_search"] = []
+    for seed in (res.seed, res.seed + 100):
+        for stream in streams:
+            if time.time() > budget:
+                return
+            wd = os.path.join(res.workdir, f"escalate-{stream}-{seed}")
+            ok, log = C.run_stream(stream, seed, "thorough", wd)
+            if not ok:
+                continue
+            ops = C.op_lines(os.path.join(wd, "ops.txt"))
+            impl = [l for l in C.read_lines(os.path.join(wd, "impl.txt")) if l != ""]
+            allv, _ = judge_hist.judge(ops, impl, want | {res.pid}, ignore_envelope=(stream in ("frag", "fragboot")))
+            viol = [v for v in allv if v["prop"] in (want | {res.pid})]
+            res.cov["escalated_search"].append(dict(stream=stream, seed=seed, lines=len(ops), violations=len(viol)))
+            for v in viol[:3]:
+                rp = write_replay(res, f"escalate-{stream}", ops, impl, impl, v["line"], v["msg"])
+                res.violations.append(dict(msg=v["msg"], replay=rp))
+            if viol:
+                return
+
 
 def replay(res, spec, path):
     """re-run one replay file (ops with comments) through implementation, model and judge"""
